@@ -302,9 +302,22 @@ def build(spec, shape=None, units=None):
     shape = tuple(spec["shape"] if shape is None else shape)
     units = spec["units"] if units is None else units
     arr = dec_units(units, shape, (unit_rows(kind, n, k), n + 1))
-    a = arr.copy
-    r0 = lambda: arr[..., 0, :].copy()
-    r1 = lambda: arr[..., 1, :].copy()
+    handed = []
+
+    def give(x):
+        handed.append(x)
+        return x
+    obj = _build_kind(kind, variant, arr, lambda: give(arr.copy()),
+                      lambda: give(arr[..., 0, :].copy()), lambda: give(arr[..., 1, :].copy()),
+                      give)
+    # the caller re-uses its buffers afterwards: an object must not keep reading its data
+    # through an alias of an array it was constructed from
+    for h in handed:
+        h[...] = 777.0
+    return obj
+
+
+def _build_kind(kind, variant, arr, a, r0, r1, give):
     if kind == "P.Point":
         return P.Point(r0())
     if kind == "P.PointPair":
@@ -318,7 +331,7 @@ def build(spec, shape=None, units=None):
     if kind == "P.Transformation":
         if variant == 0:
             return P.Transformation(a())
-        return P.Transformation(np.swapaxes(arr, -1, -2).copy(), column_vectors=True)
+        return P.Transformation(give(np.swapaxes(arr, -1, -2).copy()), column_vectors=True)
     if kind == "H.Point":
         return H.Point(r0())
     if kind == "H.IdealPoint":
@@ -344,7 +357,7 @@ def build(spec, shape=None, units=None):
     if kind == "H.Isometry":
         if variant == 0:
             return H.Isometry(a())
-        return H.Isometry(np.swapaxes(arr, -1, -2).copy(), column_vectors=True)
+        return H.Isometry(give(np.swapaxes(arr, -1, -2).copy()), column_vectors=True)
     raise HarnessError("unknown kind %r" % kind)
 
 
@@ -365,9 +378,10 @@ def build_T(hyp, cols, col_flag):
     over as column matrices (col_flag) or as the transposed row matrices"""
     cls = H.Isometry if hyp else P.Transformation
     cols = np.asarray(cols)
-    if col_flag:
-        return cls(cols.copy(), column_vectors=True)
-    return cls(np.swapaxes(cols, -1, -2).copy(), column_vectors=False)
+    buf = cols.copy() if col_flag else np.swapaxes(cols, -1, -2).copy()
+    T = cls(buf, column_vectors=bool(col_flag))
+    buf[...] = 777          # the caller re-uses its buffer (see build)
+    return T
 
 
 def act_rows(rows, col):
